@@ -450,6 +450,25 @@ fn part_contexts(depth: usize, st: &mut Stats) {
     go(&HCtx::new(), &mut vec![], &ops, &pool, depth, depth, st);
 }
 
+/// Every character in 0..=0x3000 (and a few beyond) inside the expression string: as string-literal content,
+/// inside an identifier, alone, inside a comment and as a variable name of a context.
+fn part_code_points(st: &mut Stats) {
+    let mut cps: Vec<u32> = (0..=0x3000).collect();
+    cps.extend([0xfeff, 0xfffd, 0xe000, 0x1f600, 0xe0001, 0x10ffff]);
+    for c in cps.into_iter().filter_map(char::from_u32) {
+        for src in [format!("\"a{c}b\""), format!("a{c}b"), format!("{c}"), format!("1 /*{c}*/ + 2"), format!("x == \"{c}{c}\" + 1")] {
+            check_expression(&src, st);
+            *st.counters.entry("c/code-point-sources".into()).or_insert(0) += 1;
+        }
+        if c as u32 % 8 == 0 || !c.is_ascii() && (c as u32) < 0x2100 {
+            let mut ctx = HCtx::new();
+            let _ = ctx.set_value(format!("n{c}"), Value::String(format!("v{c}")));
+            let _ = ctx.set_value(format!("{c}"), Value::Int(1));
+            check_context(&ctx, &format!("set_value(\"n{}\", \"v{}\"); set_value(\"{}\", 1)", c.escape_default(), c.escape_default(), c.escape_default()), st);
+        }
+    }
+}
+
 /// Long expressions and contexts with many variables.
 fn part_scaling(thorough: bool, st: &mut Stats) {
     let mut sizes: Vec<usize> = (1..=if thorough { 40 } else { 20 }).collect();
@@ -509,7 +528,7 @@ fn write_outputs(tier: &str, seed: u64, st: &Stats, wall: f64) -> i32 {
         st.states,
         st.transitions,
         st.transitions,
-        esc("(a) depth-first search over every token sequence up to the tier's length over a 14-token alphabet and every character string up to the tier's length over 25 characters (quotes, backslashes, newline, multi-byte, signs, digits, dot, e, x, punctuation), each encoded as a RON string with ron::ser::to_string and decoded as Node: Ok trees must equal build_operator_tree(s), Err messages must equal error.to_string(); (b) every HashMapContext reachable by API histories up to the tier's depth over {set_value of 4 names (two differing only in case, one with a space and a non-ASCII letter, the empty name) x a value pool of all six types incl. i64 extremes, signed zero, subnormal, infinities, NaN, nested/empty tuples, hostile strings; clear_variables; set_function (also under the name of a variable); builtin switch on/off; expression assignments; replacing the context by its own deserialized copy, so that histories continue from deserialized contexts}: from_str(to_string(c)), and the same through pretty output with struct names, must have the same sorted variable map (floats by bits), the same switch and resolve no user function; plus every pool value as a bare Value; plus scaling families (expressions of n terms / nesting depth n / strings of n escapes, contexts with n variables incl. case-colliding names and an n-tuple, n in 1..20 and up to 129 / 1..40 and up to 400). A state is a token/character prefix or a context history; a transition appends a token or applies an operation; every state is executed on the implementation. Non-trivial = sources of >= 3 bytes and contexts with >= 2 variables (each enumerated once)"),
+        esc("(a) depth-first search over every token sequence up to the tier's length over a 14-token alphabet and every character string up to the tier's length over 25 characters (quotes, backslashes, newline, multi-byte, signs, digits, dot, e, x, punctuation), each encoded as a RON string with ron::ser::to_string and decoded as Node: Ok trees must equal build_operator_tree(s), Err messages must equal error.to_string(); (b) every HashMapContext reachable by API histories up to the tier's depth over {set_value of 4 names (two differing only in case, one with a space and a non-ASCII letter, the empty name) x a value pool of all six types incl. i64 extremes, signed zero, subnormal, infinities, NaN, nested/empty tuples, hostile strings; clear_variables; set_function (also under the name of a variable); builtin switch on/off; expression assignments; replacing the context by its own deserialized copy, so that histories continue from deserialized contexts}: from_str(to_string(c)), and the same through pretty output with struct names, must have the same sorted variable map (floats by bits), the same switch and resolve no user function; plus every pool value as a bare Value; plus every character in 0..=0x3000 inside the expression string (string content, identifier, alone, comment) and in variable names; plus scaling families (expressions of n terms / nesting depth n / strings of n escapes, contexts with n variables incl. case-colliding names and an n-tuple, n in 1..20 and up to 129 / 1..40 and up to 400). A state is a token/character prefix or a context history; a transition appends a token or applies an operation; every state is executed on the implementation. Non-trivial = sources of >= 3 bytes and contexts with >= 2 variables (each enumerated once)"),
         samples,
         counters,
         [
@@ -590,10 +609,12 @@ fn main() {
             part_expressions(5, 3, &mut st);
             part_contexts(2, &mut st);
             part_scaling(false, &mut st);
+            part_code_points(&mut st);
         } else {
             part_expressions(6, 4, &mut st);
             part_contexts(3, &mut st);
             part_scaling(true, &mut st);
+            part_code_points(&mut st);
         }
     }));
     if r.is_err() {
